@@ -4,7 +4,8 @@
 //   lru        cache.BoundedCache vs the pointer-level Lean model (SSV.Model.Lru) vs a reference map
 //   dnslookup  dns.Resolver with a scripted TCP upstream over netio.NewPipe under testing/synctest
 //              (fake clock) vs SSV.Model.Dns vs the statement oracle (oracle.go)
-//   (the UDP receive loop is modelled and proved about in Lean, but has no correspondence engine yet: udp.go is a stub)
+//   dnsconc    concurrent lookups with held upstream answers under synctest vs the two-phase Lean model
+//   dnsudp     the UDP path on loopback in real time (wrong source, wrong id, silence, truncation -> TCP)
 package main
 
 import (
@@ -120,6 +121,12 @@ func run(t *testing.T, o *common.Options, rep *common.Report) error {
 				return err
 			}
 			return evalLruCases([]LruCase{c}, o, rep)
+		case "dnsconc":
+			var c ConcCase
+			if err := common.LoadReplay(o.Replay, &c); err != nil {
+				return err
+			}
+			return evalConcCase(t, c, o, rep, drv)
 		case "dnsudp":
 			var c UDPCase
 			if err := common.LoadReplay(o.Replay, &c); err != nil {
@@ -159,15 +166,45 @@ func run(t *testing.T, o *common.Options, rep *common.Report) error {
 			return err
 		}
 	}
-	rep.Note("UDP path (sendQueriesUDP: source filter, truncation fallback, silence) is not exercised by a correspondence engine; only the Lean model/theorems and Gen facts cover it")
-	return nil
+	// ---- dnsconc: directed eviction races for every capacity, then random interleavings ----
+	for capN := 1; capN <= 3; capN++ {
+		for fill := capN; fill <= capN+1; fill++ {
+			if err := evalConcCase(t, evictionRace(capN, fill, 1, 60, 1e9), o, rep, drv); err != nil {
+				return err
+			}
+		}
+	}
+	n = o.Budget(600, 10000)
+	for i := 0; i < n; i++ {
+		if err := evalConcCase(t, genConcCase(r.Fork(3<<32+uint64(i))), o, rep, drv); err != nil {
+			return err
+		}
+	}
+	// ---- dnsudp: loopback, real time ----
+	var ucs []UDPCase
+	n = o.Budget(40, 400)
+	for i := 0; i < n; i++ {
+		class := "A"
+		if i%4 == 3 {
+			class = "B"
+		}
+		ucs = append(ucs, genUDPCase(r.Fork(2<<32+uint64(i)), class))
+	}
+	if o.Thorough() { // the real 20 s lookup timeout, then TCP
+		for i := 0; i < 6; i++ {
+			ucs = append(ucs, genUDPCase(r.Fork(5<<32+uint64(i)), "C"))
+		}
+	}
+	return evalUDPCases(ucs, o, rep, drv)
 }
 
 func main() {
 	o := common.ParseFlags()
 	rep := common.NewReport("C17", o)
-	rep.Engines = []string{"lru", "dnslookup"}
+	rep.Engines = []string{"lru", "dnslookup", "dnsconc", "dnsudp"}
 	rep.Rule = "lru: op sequences (get/set/insert/remove/contains/len/all/backward, <= 43 ops) over key sets just above the capacity, capacities {1,2,3,4,5,8,unbounded}; non-trivial = at least one hit and one miss. " +
+		"dnsconc: 2..5 concurrent lookups on one resolver (capacity 1..3) with held/released upstream answers in scripted orders under synctest, incl. directed 'refresh in flight while other names evict the entry' races for every capacity; non-trivial = at least 2 lookups in flight at once. " +
+		"dnsudp: real-time loopback runs of the UDP path: valid answers from a wrong source address, wrong id / not-a-response / RA=0 / garbage, truncation, silence (short context; the real 20 s timeout in thorough), then TCP fallback; compared: result, addresses, queries per TCP attempt. " +
 		"dnslookup: histories of 3..10 lookups over 1..4 names, cache capacity 1..4 (sometimes unbounded), scripted TCP upstream per lookup (valid / NXDOMAIN+SOA / NODATA / SERVFAIL.. / truncated / wrong id / not-a-response / RA=0 / unknown rcode / garbage / cut messages / bad record bodies / zero length / close mid-message / hang / dial failure), lookup instants placed +-1 ns around the TTL instants of the cached entry under a fake clock; non-trivial = at least one upstream success and one cache hit or failure; distinct by full observable history. "
 	exit := 0
 	testing.Main(func(pat, str string) (bool, error) { return true, nil }, []testing.InternalTest{{Name: "corr_c17", F: func(t *testing.T) {
